@@ -2,7 +2,7 @@
 (* code -> spec for the value domain: every recorded line is one step of the    *)
 (* statement's monitor (MetricValueContract).  Lines:                           *)
 (*   [ev "Cfg", sc, sk: stream -> [inst, num, scale, ..], rd: reader -> [temp, kind]] *)
-(*   [ev "Add", sc, s, v]            v = the model integer recorded (times the scale) *)
+(*   [ev "Add", sc, s, v, back]      v = the model integer recorded (times the scale); back: v = minus the stream's total *)
 (*   [ev "Collect", sc, r, via, got: stream -> model integer reported (absent = 0),   *)
 (*                  bad: streams whose reported number is not a multiple of the scale] *)
 (* The expected sums are Want(..) below -- never computed by the harness.        *)
@@ -11,8 +11,8 @@ VARIABLES l, mo, cf, cls
 vars == <<l, mo, cf, cls>>
 
 Temps(rd) == [r \in DOMAIN rd |-> rd[r].temp]
-NoCls(sk) == [s \in DOMAIN sk |-> [neg |-> FALSE, zero |-> FALSE, pos |-> FALSE]]
-Seen(c, v) == [neg |-> c.neg \/ v < 0, zero |-> c.zero \/ v = 0, pos |-> c.pos \/ v > 0]
+NoCls(sk) == [s \in DOMAIN sk |-> [neg |-> FALSE, zero |-> FALSE, pos |-> FALSE, back |-> FALSE]]
+Seen(c, v, back) == [neg |-> c.neg \/ v < 0, zero |-> c.zero \/ v = 0, pos |-> c.pos \/ v > 0, back |-> c.back \/ back]
 
 Init == l = 1 /\ mo = MFresh(<<>>, <<>>) /\ cf = [sc |-> -1, sk |-> <<>>, rd |-> <<>>] /\ cls = <<>>
 
@@ -20,7 +20,7 @@ Report(e, s, kind, want) ==
   Viol([line |-> l, sc |-> e.sc,
         v |-> [kind |-> kind, s |-> s, r |-> e.r, via |-> e.via, temp |-> cf.rd[e.r].temp, rkind |-> cf.rd[e.r].kind,
                inst |-> cf.sk[s].inst, num |-> cf.sk[s].num, scale |-> cf.sk[s].scale, want |-> want, got |-> e.got[s],
-               neg |-> cls[s].neg, zero |-> cls[s].zero, pos |-> cls[s].pos]])
+               neg |-> cls[s].neg, zero |-> cls[s].zero, pos |-> cls[s].pos, back |-> cls[s].back]])
 
 TStep ==
   /\ l <= Len(Trace)
@@ -30,7 +30,7 @@ TStep ==
      ELSE IF e.sc # cf.sc \/ e.ev \notin {"Add", "Collect"}
        THEN UNCHANGED <<mo, cf, cls>>
      ELSE IF e.ev = "Add"
-       THEN mo' = MAdd(mo, e.s, e.v) /\ cls' = [cls EXCEPT ![e.s] = Seen(@, e.v)] /\ UNCHANGED cf
+       THEN mo' = MAdd(mo, e.s, e.v) /\ cls' = [cls EXCEPT ![e.s] = Seen(@, e.v, e.back)] /\ UNCHANGED cf
      ELSE LET rd == Temps(cf.rd)
               want == Want(mo, rd, e.r)
               nd == NoDecrease(mo, cf.sk)
